@@ -8,8 +8,9 @@
                  residuals (residual_position / velocity / acceleration), k = 1..3 jet coordinates
                  (differential order 0..2), explicit t, lifted by jet_lift(lift_by) or jet_lift_max,
                  lift_by in -2..6 and 0..k+6 supplied coefficients: ValueError iff the model rejects;
-                 outputs, num_tcoeffs_in_args and tcoeff_indices_output vs model; ALSO vs an
-                 independent evaluation (fractions) of the iterated total-derivative operator
+                 outputs, num_tcoeffs_in_args and tcoeff_indices_output vs model; ALSO vs the
+                 specification (Spec/ODESeries.v lift_spec, evaluated in Coq) and vs an independent
+                 evaluation here (fractions) of the iterated total-derivative operator
                  D_t g = dg/dt + sum_j dg/dx_j . x_{j+1};
      fromode   : residual_from_ode(ode) value = x_k - f; residual_from_ode(ode).jet_lift(m) and
                  residual_from_ode(ode.jet_lift(m)) vs model and vs (x_{k+l} - lifted f_l);
@@ -226,6 +227,9 @@ def coq_terms(c):
         k, d = c["k"], c["d"]
         ts = [("lift", f"c11_lift {lib.coq_nat(k)} {lib.coq_nat(d)} {coq_polys(c['polys'])} {zlit(c['lift_by'])} "
                        f"{lib.qcmat(c['coords'])} {lib.qclit(c['t'])}")]
+        if 0 <= c["lift_by"] <= len(c["coords"]) - k:
+            ts.append(("spec", f"c11_lift_spec {lib.coq_nat(k)} {lib.coq_nat(d)} {coq_polys(c['polys'])} {lib.coq_nat(c['lift_by'])} "
+                               f"{lib.qcmat(c['coords'])} {lib.qclit(c['t'])}"))
         if c["role"] == "ode":
             ts.append(("sig", f"c11_ode_signature {lib.coq_nat(k)} {lib.coq_nat(k)} {zlit(c['lift_by'])}"))
             if c["via_max"] is not None:
@@ -295,20 +299,20 @@ def main():
     quick = ck.tier == "quick"
 
     cases = []
-    for _ in range(24 if quick else 200):
+    for _ in range(36 if quick else 250):
         for role in ("ode", "res"):
             cases.append(gen_lift_case(rng, role, True))
-    for _ in range(12 if quick else 100):
+    for _ in range(18 if quick else 120):
         for role in ("ode", "res"):
             cases.append(gen_lift_case(rng, role, False))
-    for _ in range(6 if quick else 50):
+    for _ in range(9 if quick else 60):
         for role in ("ode", "res"):
             cases.append(gen_lift_case(rng, role, rng.random() < 0.7, via_max=True))
-    for _ in range(12 if quick else 100):
+    for _ in range(18 if quick else 120):
         cases.append(gen_fromode_case(rng))
-    for _ in range(10 if quick else 80):
+    for _ in range(15 if quick else 100):
         cases.append(gen_stack_case(rng))
-    for _ in range(3 if quick else 25):
+    for _ in range(5 if quick else 30):
         for kind in ("dense", "iso", "blockdiag"):
             for lin in ("ts0", "ts1"):
                 cases.append(gen_lin_case(rng, kind, lin))
@@ -412,6 +416,9 @@ def main():
             spec = total_derivatives(c["polys"], k, d, m, c["coords"], c["t"])
             if mq != spec and model_bug is None:
                 model_bug = (replay, "lift model vs independent evaluation of the iterated total-derivative operator")
+            cs = model(ci, "spec")
+            if cs is not None and unflat(lib.decode_optQ(cs), nout) != mq and model_bug is None:
+                model_bug = (replay, "lift model vs the Coq specification lift_spec (contradicts T11.1)")
             mism_s = compare(call["out"], spec, "derivative")
             mism_m = compare(call["out"], mq, "derivative")
             if mism_s and mism_m:
